@@ -396,6 +396,45 @@ func oracleC09(r *Rng, n int, thorough bool, seeds []string) *OracleResult {
 		}
 	}
 
+	// 0b. history: the cost of decoding a SMALL input does not depend on what the
+	// process decoded before (seeded change C09-8: a process-wide size hint taken
+	// from the previous datagram).  One probe process decodes a heavy member of
+	// every family and, straight after it, the smallest input of that entry point.
+	{
+		tiny := func(entry string) []byte {
+			switch {
+			case entry == "v6":
+				return []byte{1, 0, 0, 0}
+			case entry == "v4":
+				return append(c09Hdr4(), 255)
+			case entry == "label":
+				return []byte{0}
+			}
+			return []byte{}
+		}
+		seq := &costClient{}
+		var hs []costCase
+		var hm []costMeasure
+		warm := map[string]bool{}
+		for _, f := range costFamilies() {
+			t := tiny(f.Entry)
+			if !warm[f.Entry] {
+				// one-time initialisations of this code path are paid here, not below
+				warm[f.Entry] = true
+				seq.measure(f.Entry, t)
+			}
+			heavy := f.Build(16000)
+			if m := seq.measure(f.Entry, heavy); m.Hang || m.Died != "" {
+				continue // reported by the size sweep below
+			}
+			// measured ONCE: a second measurement would already be "after the small one"
+			hs = append(hs, costCase{f.Entry, "after:" + f.Name, t})
+			hm = append(hm, seq.measure("once:"+f.Entry, t))
+		}
+		seq.stop()
+		record(hs, hm)
+	}
+
 	// 1. the adversarial families, ascending sizes (so the smallest failing size is reported)
 	sizes := []int{0, 64, 512, 4096, 16384}
 	if thorough {
